@@ -224,9 +224,28 @@ def evaluate(res, valids):
     return v
 
 
+def valid_member_name(name, kind):
+    return {"text": "f.log", "evtx": "f.evtx", "journal": "f.journal", "utmp": "wtmp"}[kind]
+
+
 def build_case(rng):
     name, content, kind, cont, stored = valid_base(rng)
-    fname, data, fdesc = inject(rng, name, stored, content, cont)
+    if cont != "plain" and rng.random() < 0.3:
+        # damage the content, then store it in a well-formed container: the decoder succeeds and the reader behind it
+        # (through a temporary copy for journals and event logs) meets the damage
+        _, bad, fdesc = inject(rng, name, content)
+        if fdesc["fault"] in ("wrong_name", "random_bytes", "none"):
+            bad = content[:rng.randrange(len(content) + 1)]
+            fdesc = {"fault": "truncate", "at": len(bad), "of": len(content)}
+        fdesc["fault"] = "content_" + fdesc["fault"] + "_inside_valid_container"
+        if cont == "tar":
+            # the member keeps a name of its kind
+            data = world.to_tar([(valid_member_name(name, kind), bad, 1600000000)], rng.choice(("ustar", "gnu", "pax")))
+        else:
+            data, _ = world.random_container(rng, cont, bad, 1600000000, "x")
+        fname = name
+    else:
+        fname, data, fdesc = inject(rng, name, stored, content, cont)
     fdesc.update({"base_kind": kind, "base_container": cont})
     nvalid = rng.choice((0, 0, 1, 1, 2, 3))
     valids = merge.gen_sources(rng, nvalid, 65536, max_msgs=8, allow_degenerate=False, letter_base=6) if nvalid else []
